@@ -569,7 +569,7 @@ PROPS['C15'] = dict(
            '(scale, one-hot, oov padding, continuification threshold 0/10/inf, LINEAR/LOG/REVERSE_LOG) and all 6 column '
            'layouts of a categorical + continuous + discrete space',
     outside='float32 mode beyond the float32_double obligation; float rounding inside the symbolic kernels; LOG/REVERSE_LOG outside the listed feasible points; '
-            'jnp_converters padding schedules; embedder.ProblemAndTrialsScaler; safety-metric label shifting',
+            'jnp_converters padding schedules (the unpadded converter is covered by jnp_roundtrip); embedder.ProblemAndTrialsScaler; safety-metric label shifting',
     assumptions=['core.np = engine/npshim on symbolic scalars (self-tested against numpy)'],
     obligations=[
         O('C15.linear_scaling', 'harness.c15_encoding', 'linear_scaling', 120, 600,
@@ -589,6 +589,16 @@ PROPS['C15'] = dict(
           'float32 features, DOUBLE parameter with bounds a float32 cannot represent: feasible points round-trip to float32 '
           'accuracy; with clipping on ANY feature value (far outside, one ulp outside, 1e30) decodes into [low, high]',
           '6 bound pairs x scale on/off x clip on/off x 9 feature values'),
+        O('C15.jnp_roundtrip', 'harness.c15_encoding', 'jnp_roundtrip', 300, 900,
+          'jnp_converters.TrialToContinuousAndCategoricalConverter (the converter of the GP designers): to_parameters(to_features(t)) '
+          '== t for a categorical + double + integer + discrete space, continuous block inside the unit cube',
+          '6 column layouts x continuification threshold 0/10/inf x 81 points', no_validate=True),
+        O('C15.onehot_decode_any', 'harness.c15_encoding', 'onehot_decode_any', 60, 300,
+          'any content of a padded one-hot block (all equal, OOV column largest, negative, huge) decodes to a feasible category',
+          '8 rows x 1..3 categories x float32/64'),
+        O('C15.tiny_ranges', 'harness.c15_encoding', 'tiny_ranges', 60, 300,
+          'valid DOUBLE ranges that are narrow in absolute terms (1e-10..1e-8, 1000..1000.005, ...): low -> 0, high -> 1, '
+          'round trip to 1e-6 of the width', '5 ranges x 5 points'),
         O('C15.labels_roundtrip', 'harness.c15_encoding', 'labels_roundtrip', 60, 300,
           'objective labels: to_metrics(convert(m)) == m under either sign convention; missing measurement -> NaN'),
     ])
